@@ -1,0 +1,193 @@
+//! Verification hooks. Compiled only with `--cfg zerokit_verif`; every hook is inert unless a
+//! test harness arms it, so enabling the cfg alone does not change behaviour.
+//!
+//! - storage fault plan: consulted by `SledDB::{put, put_batch, close}` before the real call
+//! - simulated clock: `verif::thread::sleep` replaces `std::thread::sleep` in the open-retry loop
+//! - yield points: optional callback invoked at a few read-only sites (caller-thread scheduling)
+
+use std::cell::RefCell;
+use std::sync::atomic::{AtomicU64, Ordering};
+use std::sync::RwLock;
+use std::time::Duration;
+
+/// Kind of storage write the adapter is about to perform.
+#[derive(Clone, Copy, PartialEq, Eq, Debug)]
+pub enum WriteOp {
+    Put,
+    PutBatch,
+    Flush,
+}
+
+/// What the armed plan asks the adapter to do at this storage write.
+#[derive(Clone, Copy, PartialEq, Eq, Debug)]
+pub enum Verdict {
+    Proceed,
+    Fail,
+}
+
+#[derive(Default)]
+struct FaultPlan {
+    counting: bool,
+    seen: u64,
+    fail_at: Vec<u64>,
+    sticky_from: Option<u64>,
+    exit_at: Option<u64>,
+    fired: u64,
+    log: Vec<(u64, WriteOp, bool)>,
+}
+
+thread_local! {
+    static PLAN: RefCell<FaultPlan> = RefCell::new(FaultPlan::default());
+    static CLOCK: RefCell<SimClock> = RefCell::new(SimClock::default());
+}
+
+/// Starts counting storage writes on this thread (1-based) and fails the listed positions.
+/// `sticky_from`: every write at or after that position fails. `exit_at`: the process exits
+/// (no unwinding, no destructors) when that position is reached.
+pub fn arm(fail_at: &[u64], sticky_from: Option<u64>, exit_at: Option<u64>) {
+    PLAN.with(|p| {
+        let mut p = p.borrow_mut();
+        *p = FaultPlan {
+            counting: true,
+            seen: 0,
+            fail_at: fail_at.to_vec(),
+            sticky_from,
+            exit_at,
+            fired: 0,
+            log: Vec::new(),
+        };
+    });
+}
+
+/// Stops counting; returns (writes seen, faults fired, log of (position, kind, failed)).
+pub fn disarm() -> (u64, u64, Vec<(u64, WriteOp, bool)>) {
+    PLAN.with(|p| {
+        let mut p = p.borrow_mut();
+        let out = (p.seen, p.fired, std::mem::take(&mut p.log));
+        *p = FaultPlan::default();
+        out
+    })
+}
+
+/// (writes seen, faults fired) so far, without disarming.
+pub fn write_counters() -> (u64, u64) {
+    PLAN.with(|p| {
+        let p = p.borrow();
+        (p.seen, p.fired)
+    })
+}
+
+/// Called by the storage adapter at the top of every write / flush.
+pub fn write_fault(op: WriteOp) -> Verdict {
+    PLAN.with(|p| {
+        let mut p = p.borrow_mut();
+        if !p.counting {
+            return Verdict::Proceed;
+        }
+        p.seen += 1;
+        let k = p.seen;
+        if p.exit_at == Some(k) {
+            // crash without goodbye: no flush, no drop
+            unsafe { libc_exit(77) };
+        }
+        let fail = p.fail_at.contains(&k) || p.sticky_from.map(|s| k >= s).unwrap_or(false);
+        if fail {
+            p.fired += 1;
+        }
+        p.log.push((k, op, fail));
+        if fail {
+            Verdict::Fail
+        } else {
+            Verdict::Proceed
+        }
+    })
+}
+
+extern "C" {
+    #[link_name = "_exit"]
+    fn libc_exit(code: i32) -> !;
+}
+
+#[derive(Default)]
+struct SimClock {
+    active: bool,
+    now_ms: u64,
+    sleeps: Vec<u64>,
+    on_advance: Option<Box<dyn FnMut(u64)>>,
+}
+
+/// Activates the simulated clock on this thread. `on_advance(now_ms)` runs after every sleep.
+pub fn clock_install(on_advance: Option<Box<dyn FnMut(u64)>>) {
+    CLOCK.with(|c| {
+        *c.borrow_mut() = SimClock {
+            active: true,
+            now_ms: 0,
+            sleeps: Vec::new(),
+            on_advance,
+        }
+    });
+}
+
+/// Deactivates the simulated clock; returns (simulated ms elapsed, individual sleeps).
+pub fn clock_remove() -> (u64, Vec<u64>) {
+    CLOCK.with(|c| {
+        let mut c = c.borrow_mut();
+        let out = (c.now_ms, std::mem::take(&mut c.sleeps));
+        *c = SimClock::default();
+        out
+    })
+}
+
+pub mod thread {
+    use super::*;
+
+    /// Drop-in for `std::thread::sleep`: advances the simulated clock when one is installed on
+    /// this thread, really sleeps otherwise.
+    pub fn sleep(d: Duration) {
+        let cb = CLOCK.with(|c| {
+            let mut c = c.borrow_mut();
+            if !c.active {
+                return None;
+            }
+            let ms = d.as_millis() as u64;
+            c.now_ms += ms;
+            c.sleeps.push(ms);
+            Some((c.now_ms, c.on_advance.take()))
+        });
+        match cb {
+            None => std::thread::sleep(d),
+            Some((now, Some(mut f))) => {
+                f(now);
+                CLOCK.with(|c| {
+                    let mut c = c.borrow_mut();
+                    if c.active && c.on_advance.is_none() {
+                        c.on_advance = Some(f);
+                    }
+                });
+            }
+            Some((_, None)) => {}
+        }
+    }
+}
+
+static YIELD_FN: RwLock<Option<fn(&'static str)>> = RwLock::new(None);
+static YIELD_HITS: AtomicU64 = AtomicU64::new(0);
+
+/// Installs (or removes) the process-wide yield callback.
+pub fn set_yield_fn(f: Option<fn(&'static str)>) {
+    *YIELD_FN.write().unwrap() = f;
+}
+
+/// A point at which a caller-thread scheduler may switch threads. No-op unless installed.
+#[inline]
+pub fn yield_point(site: &'static str) {
+    let f = *YIELD_FN.read().unwrap();
+    if let Some(f) = f {
+        YIELD_HITS.fetch_add(1, Ordering::Relaxed);
+        f(site);
+    }
+}
+
+pub fn yield_hits() -> u64 {
+    YIELD_HITS.load(Ordering::Relaxed)
+}
